@@ -31,6 +31,11 @@ SMALL_PROGRAMS = [
     "#d1 1\n",
     "#d3 5\n#d3 2\n#d2 1\n",
     "#include \"other.asm\"\n#d8 1\n",
+    # user functions where only constants can be evaluated: conditions, bank fields, directive arguments
+    "#fn enabled() => 1\n#if enabled() == 1\n{\n#d8 1\n}\n#d8 2\n",
+    "#fn base() => 0x100\n#bankdef a { #addr base(), #size 0x10, #outp 0 }\n#d8 1\n",
+    "#fn two() => 2\nc = true\n#if c\n{\nx = two()\n}\ny = two\n#res two()\n#d8 x\n",
+    "#ruledef { ld {x} => 0x10 @ x`8 }\n#fn f(p) => p + $\nld f(1)\nl:\nld f(l)\n#align f(6)\n#d8 3\n",
 ]
 
 
@@ -162,11 +167,18 @@ def bin_run(exe, wdir, files, args, wfault=None, timeout=20):
         for n in names:
             after.add(os.path.relpath(os.path.join(root, n), wdir))
     created = sorted(after - before)
+    sizes = {}
+    for n in created:
+        try:
+            sizes[n] = os.path.getsize(os.path.join(wdir, n))
+        except OSError:
+            sizes[n] = 0
+    bin_run.last_sizes = sizes
     shutil.rmtree(wdir, ignore_errors=True)
     # the failure is a write failure when the diagnostics say so
     wf = bool(wfault) or "could not create file" in err or "could not write to file" in err
     return {"code": code, "signal": sig, "errors": "error:" in err, "created": len(created),
-            "wfault": wf}, created, err
+            "wfault": wf, "mustfail": False}, created, err
 
 
 def run_c03(ck):
@@ -265,16 +277,27 @@ def run_c03(ck):
         args = random_cmdline(rng, ["main.asm"])
         wfault = None
         c = rng.random()
-        if c < 0.08:
+        if c < 0.12:
             args += ["--", "-o", "/dev/full"]
             wfault = "/dev/full"
-        elif c < 0.14:
+        elif c < 0.18:
             args += ["--", "-o", "nodir/sub/out.bin"]
             wfault = "nodir"
-        elif c < 0.2:
+        elif c < 0.24:
             files.pop("other.asm")
             os.makedirs(bdir, exist_ok=True)
         ev, created, err = bin_run(exe, os.path.join(bdir, str(k)), files, args, wfault=wfault)
+        if wfault and ev["code"] == 0 and ev["signal"] == 0:
+            # success although an output path was made unwritable: legitimate only if nothing had to be written
+            # there (help / version, an empty output).  The same command line with the path replaced by a
+            # writable one tells: if that run writes a non-empty file there, the faulted run had to fail.
+            ref_args = [("ref.out" if a in ("/dev/full", "nodir/sub/out.bin") else a) for a in args]
+            rdir = os.path.join(bdir, str(k) + "r")
+            rev, rcreated, _ = bin_run(exe, rdir, files, ref_args)
+            ev["mustfail"] = bool(rev["code"] == 0 and bin_run.last_sizes.get("ref.out", 0) > 0)
+            if ev["mustfail"]:
+                # (the reference directory is gone by now: bin_run removes it; its size was > 0 iff the program emits bits)
+                pass
         case = len(jobs) + k
         events.append({"ev": "begin", "case": case, "mode": "bin"})
         events.append(dict(ev, ev="exit", case=case))
